@@ -1,16 +1,54 @@
-"""C16: structural obligation of MemoryWorkflowStore.append_event (decided on the AST): every waiting subscriber is woken."""
+"""C16: structural obligations of the event log (decided on the AST): every waiting subscriber is woken; a subscription
+ends right after the first terminal event, wherever it sits in a batch (both stores)."""
 
 
 def run(tier, seed, repo):
-    from pyvc.astcheck import call_present_under_with
+    from pyvc.astcheck import call_present_under_with, yields_checked_for_terminal
     from pyvc.extract import Repo
-    obs = call_present_under_with(Repo(repo), "llama_agents.server._store.memory_workflow_store", "MemoryWorkflowStore",
+    r = Repo(repo)
+    obs = call_present_under_with(r, "llama_agents.server._store.memory_workflow_store", "MemoryWorkflowStore",
                                   "append_event", ".notify_all", "condition")
+    obs += yields_checked_for_terminal(r, "llama_agents.server._store.memory_workflow_store", "MemoryWorkflowStore",
+                                       "subscribe_events", "_is_terminal_event")
+    obs += yields_checked_for_terminal(r, "llama_agents.server._store.sqlite.sqlite_workflow_store",
+                                       "SqliteWorkflowStore", "subscribe_events", "_is_terminal_event")
+    # native scenarios against the real stores: replay of a failed terminal-test obligation, cross-check otherwise
+    import os
+    import subprocess
+    verif = os.path.dirname(os.path.dirname(os.path.abspath(__file__)))
+    py = os.path.join(verif, ".venv", "bin", "python")
+    scen = os.path.join(verif, "scenarios", "store_scenarios.py")
+    n_native = 0
+    for kind, tag in (("memory", "MemoryWorkflowStore"), ("sqlite", "SqliteWorkflowStore")):
+        p = subprocess.run([py, scen, f"terminal_mid_batch_{kind}"], capture_output=True, text=True,
+                           env=dict(os.environ, VERIF_REPO=repo), timeout=120)
+        n_native += 1
+        mine = [o for o in obs if "terminal-test-per-yield" in o["id"] and tag in o["id"]]
+        for o in mine:
+            if o["status"] != "proved":
+                o["detail"] += f"\nnative scenario terminal_mid_batch_{kind}: exit {p.returncode}: {p.stdout.strip()[-300:]}"
+                if p.returncode == 1:
+                    rp = os.path.join(os.environ.get("VERIF_OUT") or os.path.join(verif, "out"), "replay",
+                                      f"C16-terminal_mid_batch_{kind}.sh")
+                    os.makedirs(os.path.dirname(rp), exist_ok=True)
+                    with open(rp, "w") as f:
+                        f.write(f"#!/bin/sh\n# failed obligation: {o['id']}\nVERIF_REPO={repo} exec {py} {scen} "
+                                f"terminal_mid_batch_{kind}\n")
+                    os.chmod(rp, 0o755)
+                    o["replay"] = rp
+        if mine and all(o["status"] == "proved" for o in mine) and p.returncode != 0:
+            obs.append({"id": f"{tag}.subscribe_events/native-cross-check", "status": "error", "backend": "native",
+                        "detail": f"the terminal-test obligation holds but the native scenario fails: "
+                                  f"{p.stdout[-300:]} {p.stderr[-300:]}"})
     return {
-        "obligations": obs, "native_evaluations": 0,
-        "functions": [{"function": "MemoryWorkflowStore.append_event (wake-up of subscribers)", "backend": "ast"}],
+        "obligations": obs, "native_evaluations": n_native,
+        "functions": [{"function": "MemoryWorkflowStore.append_event (wake-up of subscribers)", "backend": "ast"},
+                      {"function": "MemoryWorkflowStore.subscribe_events / SqliteWorkflowStore.subscribe_events "
+                                   "(terminal test after every yield)", "backend": "ast"}],
         "assumptions": [
             "subscribe_events waits on the run's condition variable without polling: a record reaches every live "
             "subscriber only if append_event wakes ALL waiters (asyncio.Condition.notify_all, assumed library contract)",
+            "a generator that tests each element right after yielding it and returns on the first terminal one yields "
+            "nothing after that element (Python generator semantics); cursoring of subscribe_events is not covered",
         ],
     }
